@@ -48,4 +48,46 @@ CHECKS = {
         "text": "Generated rules (scheme, method lists with ALL/negation/duplicates, 0-3 hosts of each type, 10 route shapes with named/unnamed single and free wildcards, path_params of each type on single and free wildcards, all encoded-slash settings, decoy rules forcing backtracking out of a static branch) are loaded through the real factory; requests derived from each rule (every condition independently met/unmet, arbitrary percent-encoding of captured segments) are executed by the real executor and the matched rule id and .Request.URL.Captures, echoed by a header finalizer, are compared with a reference predicate. Held on the pairs executed.",
         "note": "glob/regex pattern semantics are delegated to the same libraries; negations are generated only together with ALL; encoded slashes under `off` and lower-case %2f belong to C08; requests use the executor directly (scheme via X-Forwarded-Proto as a trusted proxy would set it).",
     },
+    "C04": {
+        "level": "exploration",
+        "technique": "runtime monitoring: 3-way credential classification model vs assembled decision service with real authenticators; recording-wrapper trace of which authenticators ran",
+        "text": "All 258 type-level chains (length <=3 over anonymous, unauthorized, basic_auth, jwt, generic, oauth2_introspection; fallback unset/false/true at prototype and rule level) are loaded as rules of an fx-assembled decision service; requests from a credential catalogue (none, foreign scheme, valid, each kind of well-formed-invalid, failing endpoints, malformed, alternative locations, two credentials at once) are sent and status, echoed subject and the recorded order of executed authenticators are compared with a model written from the documentation. Held on the chains x requests executed.",
+        "note": "Credential shapes whose class the statement leaves open (undecodable Basic value, Bearer non-JWT for jwt, blank values) are only asserted never to yield a subject. 'Authentication fails' = non-200. Local httptest servers stand in for JWKS/introspection/identity endpoints.",
+    },
+    "C05": {
+        "level": "exploration",
+        "technique": "runtime monitoring: independent reference JWT verifier (stdlib crypto only) vs real jwt authenticator over attack catalogue + byte-level mutation of valid tokens",
+        "text": "33 real jwt authenticator instances (prototypes and rule-level variants: issuers, audiences, scopes, algorithms, leeway, key validation, metadata endpoint) run against local key-set servers (13 algorithms, kid/no kid/duplicate kid, alg absent/mismatching, x5c chains); ~66k (quick) / ~1M (thorough) tokens: valid baselines, attack catalogue (alg none, HMAC with public material, kid swap, embedded jwk/jku/x5c, re-sign, stale signature, time/issuer/audience/scope grids, segment counts) and substitution/deletion/duplication at every byte of sampled valid tokens. Asserted: observed accept => reference accept (every token); reference accept => observed accept for canonical tokens; subject id/attributes equal verified claims.",
+        "note": "Time-dependent tokens within 3 s of a boundary are 'either'; go-jose may be stricter on non-canonical encodings (counted, not alarmed); a kid carried by several keys is 'either'; hierarchic scope semantics follow code+unit tests (docs example disagrees).",
+    },
+    "C10": {
+        "level": "exploration",
+        "technique": "runtime monitoring: conservation oracle over recorded cache events (Set ttl / hit / miss) with virtual time (miniredis FastForward) and bracketed instants; remote call counters",
+        "text": "Real mechanisms (introspection, generic and jwt authenticators, jwt finalizer, client credentials, remote authorizer, contextualizer, httpcache round tripper) run with a recording cache around the real in-memory cache and the real redis client on miniredis against hash-echo servers; expiry deltas x configured TTLs x Cache-Control/Expires/Age combinations x request/repeat/advance-time/repeat sequences. Every Set must have ttl>0, end within validity (+leeway where the statement allows), not exceed the configured TTL, and nothing is stored or hit when TTL is 0 or the freshness lifetime is non-positive; no hit after validity passed.",
+        "note": "No wall-clock verdicts: expiries are >=3 s away from decision boundaries and only monotone-safe facts are asserted; in-memory expiry over long lifetimes is checked through TTL arguments (real sleeps only in thorough, <=5 s). miniredis stands in for Redis.",
+    },
+    "C11": {
+        "level": "exploration",
+        "technique": "runtime monitoring: metamorphic oracle cache-on == cache-off against hash-echo servers + key determinism over repeated evaluations (recorded cache keys, remote call counts)",
+        "text": "For 8 mechanisms: (1) the same request evaluated 60x with freshly created mechanisms must use one cache key and one remote call; (2) pairs of requests differing in exactly one component (subject, payload, value, credential, forwarded value, rule-level policy) and (3) boundary-shifted pairs are run in A,B,A / B,A,B order once with the recording in-memory cache and once with a no-op cache; per step the error kind, subject, outputs and upstream headers must be equal.",
+        "note": "Servers answer as pure functions of the request. JWTs are compared by claims minus iat/nbf/exp/jti. Open known findings list design-level defects (assertions skipped on cache hit, forwarded values/outputs not in key, httpcache key ignoring body/Vary) with narrow signatures.",
+    },
+    "C12": {
+        "level": "exploration",
+        "technique": "runtime monitoring: precedence-model oracle over generated error chains on the real HTTP and gRPC error translators (differential HTTP vs gRPC) + e2e through the three assembled services",
+        "text": "Error values are built from description trees (16 atoms x 10 constructors, exhaustive to depth 2, sampled at depth 3) and fed to the real HTTP error handler and gRPC interceptor configured like the services (verbose on/off, status overrides, 48 Accept headers); status vs a ~25-line precedence model, never 2xx/OK, HTTP==gRPC, body only when verbose and in an acceptable, parseable type. E2E: redirect => code+Location, www-authenticate => 401+WWW-Authenticate(realm), panics => 5xx, on decision, proxy and Envoy gRPC.",
+        "note": "The oracle reads only the error description, never the error value. html bodies are only checked for valid UTF-8. One open known finding (gRPC sends text/html when nothing acceptable; pinned by an existing unit test).",
+    },
+    "C17": {
+        "level": "exploration",
+        "technique": "runtime monitoring: Go race detector (child processes) + reflective deep fingerprint of prototypes/variants + behavioural differential against isolated instances",
+        "text": "23 mechanism prototypes and 110 override sets are created through the real factory in seeded orders; 16 goroutines released by a barrier hit each mechanism on first use (cold rounds) in -race children; fingerprints (unexported fields, canonical maps, pointer identity for library objects) of every prototype and earlier variant must be unchanged after creating variants and after executions; behaviour of each object equals the same object in an instance where nothing else exists; variant == fresh prototype with overlaid config; zero race reports.",
+        "note": "Only sync primitives and lock shims are excluded from fingerprints; closure-captured endpoints are covered by behaviour and race detector only. A sync.Once style lazy init would be reported (strict reading of 'does not change the mechanism'). Race freedom only on interleavings produced.",
+    },
+    "C20": {
+        "level": "exploration",
+        "technique": "runtime monitoring: metamorphic oracle over related loads of the real configuration loader (all-file == all-env == every split; env wins per leaf; permutation invariance) + schema/loader equivalence table",
+        "text": "Configurations generated from a grammar of the documented tree (nested lists in lists, every mechanism type/option) are loaded by config.NewConfiguration from a file, from per-leaf environment variables in several orders, and from random splits with conflicting assignments; canonicalised results must be equal, the environment must win exactly on conflicting leaves, defaults elsewhere; 234 table entries (each mechanism type, auth type, option) are given once by file and once by environment: usable(file) <=> usable(env).",
+        "note": "Scalars are generated with schema types; free-form map keys lower case, no `$` in values. Undocumented spellings are outside the quantifier. Three open known findings (schema applied to the file before merging; http_message_signatures missing in schema; metadata_endpoint string form).",
+    },
 }
